@@ -164,6 +164,18 @@ def check_instantiate_proxy(ctx, m, g, mt):
             ctx.violation("C12.instantiate_proxy", key + ["call", "instantiate2"], C.where(m, call), want, got, STATEMENT, "MtHelpers::emit_instantiate2_body")
     else:
         ctx.tag("feat.no-cw12")
+        # without cosmwasm_1_2 a salted instantiate cannot be honoured: it must fail, not fall back to an unsalted instantiate
+        ms = [n for n in A.find_all(call["body"], lambda n: isinstance(n, dict) and n.get("x") and n.get("k") == "match" and A.path_ids(A.strip_expr(n["expr"])) in (["salt"], [next((k for k, v in binds.items() if v == "salt"), "salt")]))]
+        ok = False
+        for mm in ms:
+            for arm in mm["arms"]:
+                if arm["pat"]["k"] == "tuplestruct" and arm["pat"]["path"]["segs"][-1]["id"] == "Some":
+                    inst = A.find_all(arm["body"], lambda n: isinstance(n, dict) and n.get("x") and n.get("k") == "mcall" and n["method"] in ("instantiate_contract", "execute"))
+                    errs = A.find_all(arm["body"], lambda n: isinstance(n, dict) and n.get("x") and n.get("k") == "call" and A.last_seg(n["func"]) == "Err")
+                    ok = not inst and bool(errs)
+        if not ok:
+            ctx.violation("C12.instantiate_proxy", key + ["call", "salt-without-cw12"], C.where(m, call), "with_salt without cosmwasm_1_2 yields an error", "salted branch performs a chain operation or does not fail", STATEMENT,
+                          "MtHelpers::emit_instantiate2_body (feature-off branch)")
 
 
 CHAIN_OPS = {"execute", "instantiate_contract", "wasm_sudo", "execute_contract", "migrate_contract", "execute_multi", "sudo"}
